@@ -221,6 +221,11 @@ impl Peer {
         metainfo: &Metainfo,
     ) -> PieceCmd {
         match chosen_index {
+            // Peer is choking us, so nothing can be requested (and reserved) until Unchoke
+            Some(_) if self.choked => {
+                self.piece_index = None;
+                PieceCmd::Ignore
+            }
             Some(chosen_index) => {
                 pieces_status[chosen_index] = match pieces_status[chosen_index] {
                     Status::Reserved(peers_count) => Status::Reserved(peers_count + 1),
